@@ -34,9 +34,9 @@ class C07(Prop):
     id = "C07"
     props_file = "Props/C07.v"
     coq_imports = ["From ONL Require Import Base.Cmp Res.Heap Res.ContainerStore Res.ContainerStoreObs."]
-    n_quick = 600
-    n_thorough = 12000
-    shard = 50
+    n_quick = 3000
+    n_thorough = 40000
+    shard = 100
     case_timeout = 20
     nontrivial_rule = ("random histories on real Container/Store/PriorityStore/FilterStore objects: 1-8 driver processes, "
                        "amounts from {1,2,3,5,1/2} (plus rare invalid 0/-1), capacities 1..10 / n+1/2 / infinite, initial levels, "
@@ -58,6 +58,8 @@ class C07(Prop):
     assumptions = [
         "requests are triggered only by the resource (nobody calls succeed()/fail() on a pending request by hand)",
         "Container: 0 <= init <= capacity, as the constructor enforces; stores start empty",
+        "store_bounded theorems: the capacity of a Store is a whole number or infinite (with capacity 2.5 the guard "
+        "len(items) < capacity admits a third item: known finding store-over-fractional-capacity)",
         "PriorityStore items are compared by `<` on an integer key (PriorityItem.priority)",
     ]
     partial = []
@@ -84,6 +86,8 @@ class C07(Prop):
             cap = None
         elif u < 0.35 and kind == "container":
             cap = qj(F(rng.randint(1, 10)) + F(1, 2))
+        elif u < 0.265:                         # a store with a fractional capacity (known finding)
+            cap = qj(F(rng.randint(1, 4)) + F(1, 2))
         else:
             cap = qj(rng.randint(1, 10) if kind == "container" else rng.choice([1, 1, 2, 2, 3, 4, 6, 10]))
         case = {"kind": kind, "cap": cap, "t0": rng.choice(["0/1", "0/1", "1/2", "3/1"])}
@@ -470,7 +474,8 @@ class C07(Prop):
                     bad(f"level-not-conserved: {where}: level {lv}, init + granted puts - granted gets = {level}")
             else:
                 if cap is not None and len(snap["c"]) > cap:
-                    bad(f"store-over-capacity: {where}: {len(snap['c'])} items, capacity {case['cap']}")
+                    slug = "store-over-capacity" if cap.denominator == 1 else "store-over-fractional-capacity"
+                    bad(f"{slug}: {where}: {len(snap['c'])} items, capacity {case['cap']}")
                 if sorted(map(repr, snap["c"])) != sorted(map(repr, held)):
                     bad(f"items-not-conserved: {where}: held {snap['c']}, accepted minus delivered {held}")
                 elif kind != "prio" and snap["c"] != held:
